@@ -108,6 +108,16 @@ def gen_buffers(rng, tier):
                     for i in range(max(120, boff - 2), min(len(b), boff + blen)):
                         b[i] = 0x61
                     bufs.append(('backing-edge', bytes(b[:L])))
+    # virtual sizes around what the largest permitted L1 table (32 MiB = 4M entries) can map
+    for version in (3, 2):
+        for cb in (9, 12, 16, 21):
+            spl1 = ((1 << cb) // 8) << cb
+            for k in ((1 << 22) - 1, 1 << 22, (1 << 22) + 1):
+                for dl in (-512, -1, 0, 1, 512, spl1 - 512, spl1 - 1):
+                    size = k * spl1 + dl
+                    if 0 < size < (1 << 64):
+                        for l1s in (1, 1 << 22):
+                            bufs.append(('size-limit', bytes(base_header(cb=cb, version=version, size=size, l1_size=l1s))))
     # two-field mutations
     for _ in range(60 if tier == 'quick' else 3000):
         b = base_header(cb=rng.choice([9, 12, 16, 21]), version=rng.choice([2, 3]))
@@ -116,6 +126,79 @@ def gen_buffers(rng, tier):
             b[off:off + n] = rng.choice(boundary(n)).to_bytes(n, 'big')
         bufs.append(('multi', bytes(b[:rng.choice([512, 512, 200, 112, 105, 104])])))
     return bufs
+
+
+
+def parse_exts(buf):
+    """header extensions of a header buffer as [(type, payload bytes)], None when malformed / version unknown"""
+    if len(buf) < 72:
+        return None
+    v = struct.unpack('>I', buf[4:8])[0]
+    pos = 72 if v == 2 else (struct.unpack('>I', buf[100:104])[0] if len(buf) >= 104 else None)
+    if pos is None:
+        return None
+    out = []
+    while pos + 8 <= len(buf):
+        t, ln = struct.unpack('>II', buf[pos:pos + 8])
+        if t == 0:
+            return out
+        if pos + 8 + ln > len(buf):
+            return None
+        out.append((t, bytes(buf[pos + 8:pos + 8 + ln])))
+        pos += 8 + ((ln + 7) & ~7)
+    return None
+
+
+def roundtrip_buffers(rng, tier):
+    """valid headers with extensions whose payload lengths are not multiples of 8 (backing format strings, unknown types)"""
+    bufs = []
+    for cb in (9, 12, 16):
+        for hl in (104, 112):
+            for _ in range(6 if tier == 'quick' else 60):
+                b = base_header(cb=cb, hl=hl)
+                pos = hl
+                used = set()
+                for _k in range(rng.randrange(1, 4)):
+                    t = rng.choice([x for x in (0xe2792aca, 0x0badcafe, 0x12345678, 0x6803f857) if x not in used])
+                    used.add(t)
+                    ln = 48 * rng.randrange(1, 3) if t == 0x6803f857 else rng.choice([1, 3, 5, 5, 7, 8, 11, 16, 21])
+                    data = bytes(rng.randrange(65, 91) for _ in range(ln)) if t != 0xe2792aca else rng.choice([b'qcow2', b'raw', b'qcow'])
+                    if t == 0x6803f857:
+                        # well-formed feature name table: 48-byte entries (type 0..2, bit number, zero padded name)
+                        data = b''.join(bytes([rng.randrange(0, 3), rng.randrange(0, 64)]) + bytes(rng.randrange(97, 123) for _ in range(rng.randrange(1, 20))).ljust(46, b'\0') for _ in range(ln // 48))
+                    if pos + 8 + len(data) + 16 > 512:
+                        break
+                    b[pos:pos + 8] = struct.pack('>II', t, len(data))
+                    b[pos + 8:pos + 8 + len(data)] = data
+                    pos += 8 + ((len(data) + 7) & ~7)
+                bufs.append(bytes(b))
+    return bufs
+
+
+def roundtrip_findings(rng, tier):
+    """parse -> serialise -> parse must give the same extensions (C15: codec fidelity of the header)"""
+    bufs = roundtrip_buffers(rng, tier)
+    d = qv.workdir('hdrrt')
+    qf = os.path.join(d, 'q.txt')
+    open(qf, 'w').write(''.join('hdr %s\n' % b.hex() for b in bufs))
+    rc, out, err = qv.run_harness(['codec', qf], timeout=300)
+    shutil.rmtree(d, ignore_errors=True)
+    finds = []
+    lines = out.strip('\n').split('\n')
+    for b, il in zip(bufs, lines):
+        kv = parse_kv(il)
+        if il.split()[1:2] != ['ok'] or 'ser' not in kv:
+            continue
+        ser = bytes.fromhex(kv['ser']) if isinstance(kv['ser'], str) else kv['ser']
+        e0, e1 = parse_exts(b), parse_exts(ser + bytes(16))
+
+        def canon(es):
+            # the feature name table is a set of 48-byte entries: their order carries no meaning
+            return None if es is None else [(t, tuple(sorted(p[i:i + 48] for i in range(0, len(p), 48))) if t == 0x6803f857 else p) for t, p in es]
+        if e0 is not None and canon(e0) != canon(e1):
+            finds.append((b, 'header extensions change when a parsed header is serialised again: %s -> %s' % (
+                [(hex(t), p) for t, p in e0][:4], [(hex(t), p) for t, p in (e1 or [])][:4] if e1 is not None else 'unparsable')))
+    return finds, len(bufs)
 
 
 def parse_kv(line):
@@ -275,6 +358,6 @@ def run(tier, seed, replay):
            'rule': 'header buffers: random byte strings of lengths 0..4096, single-/multi-field boundary mutations of valid v2 and v3 headers, extension type/length mutations (incl. feature-name tables of length 1 mod 48 and lengths beyond the buffer), backing-name placements, truncations; images: valid library images with one L1/L2/reftable entry redirected (beyond EOF, into the header, self loops, unaligned, reserved bits, compressed descriptors), then open + read/write/discard/flush/check',
            'samples': [{'kind': k, 'hex': b.hex()[:240]} for k, b in bufs[:2]] + [{'kind': 'corrupt', 'entry': str(meta2[c][0]), 'value': meta2[c][1]} for c, _ in texts2[:2]],
            'programs': len(bufs), 'disagreements_checked': len(finds), 'outcome_distribution': dict(dist), 'corrupt_image_ops': nops}
-    return common.finish('C14', tier, seed, 'proof' if gate['obligations'] else 'exploration', gate, cov, t, violations, known,
+    return common.finish('C14', tier, seed, 'exploration', gate, cov, t, violations, known,
                          ['peak memory is not measured: header-derived table sizes are bounded by the checks the specification reading applies (l1_size, refcount_table_clusters limits)'],
                          'from_buf outcome classes vs the specification reading of the same bytes; corrupted-table images exercised through the API under watchdog.')
